@@ -203,7 +203,7 @@ func Harness_C01_C02_C03_C04_C05_schedule() {
 		"(*github.com/honeycombio/refinery/collect/cache.DefaultInMemCache).TakeExpiredTraces",
 		"(*github.com/honeycombio/refinery/collect/cache.cuckooSentCache).Record",
 		"(*github.com/honeycombio/refinery/collect/cache.cuckooSentCache).CheckSpan")
-	K := 3
+	K := 4
 	if zz.Thorough() {
 		K = 5
 	}
